@@ -117,6 +117,7 @@ type returnPoint struct {
 }
 
 type Exec struct {
+	tsubst map[string]types.Type // type parameter names of the generic function whose contract is being evaluated
 	prog      *Program
 	anchors   map[string][]string // heap component -> references (bases of slice parameters) at which every new heap version is related to its predecessor by a ground instance
 	cs        *ContractSet
